@@ -190,36 +190,60 @@ func Solve(vcs []*VC, opts SolveOpts, filter func(*Obligation) bool) []*Result {
 		}
 		g.js = append(g.js, j)
 	}
-	var wg sync.WaitGroup
-	ch := make(chan *group)
-	for w := 0; w < opts.Workers; w++ {
-		wg.Add(1)
-		go func() {
-			defer wg.Done()
-			for g := range ch {
-				if len(g.js) >= 3 && opts.Batch {
-					solveBatch(g.js[0].vc, g.js, results, opts)
-					continue
-				}
-				if len(g.js) >= 4 && !opts.NoConj {
-					// the conjunction of all goals of the group first (one query instead of n when everything holds,
-					// e.g. the 170 conjuncts of an object invariant required at a call site); an `unsat` of the
-					// conjunction is an `unsat` of every member. Anything else: each member on its own.
-					if solveConj(g.js[0].vc, g.js, results, opts) {
+	// phase 1 (parallel over groups): the conjunction of all goals of a group first (one query instead of n when
+	// everything holds, e.g. the 170 conjuncts of an object invariant required at a call site); an `unsat` of the
+	// conjunction is an `unsat` of every member. Phase 2 (parallel over single obligations): everything else.
+	var single []job
+	var mu sync.Mutex
+	{
+		var wg sync.WaitGroup
+		ch := make(chan *group)
+		for w := 0; w < opts.Workers; w++ {
+			wg.Add(1)
+			go func() {
+				defer wg.Done()
+				for g := range ch {
+					if len(g.js) >= 3 && opts.Batch {
+						solveBatch(g.js[0].vc, g.js, results, opts)
 						continue
 					}
+					if len(g.js) >= 4 && !opts.NoConj && solveConj(g.js[0].vc, g.js, results, opts) {
+						continue
+					}
+					mu.Lock()
+					single = append(single, g.js...)
+					mu.Unlock()
 				}
-				for _, j := range g.js {
+			}()
+		}
+		for _, g := range groups {
+			if len(g.js) < 4 || opts.NoConj {
+				single = append(single, g.js...)
+				continue
+			}
+			ch <- g
+		}
+		close(ch)
+		wg.Wait()
+	}
+	{
+		var wg sync.WaitGroup
+		ch := make(chan job)
+		for w := 0; w < opts.Workers; w++ {
+			wg.Add(1)
+			go func() {
+				defer wg.Done()
+				for j := range ch {
 					results[j.idx] = solveOne(j.vc, j.o, j.idx, opts)
 				}
-			}
-		}()
+			}()
+		}
+		for _, j := range single {
+			ch <- j
+		}
+		close(ch)
+		wg.Wait()
 	}
-	for _, g := range groups {
-		ch <- g
-	}
-	close(ch)
-	wg.Wait()
 	return results
 }
 
